@@ -343,8 +343,8 @@ UdpTransportDescriptorParser = TransportDescriptorParser(
 UsbTmcTransportDescriptorParser = TransportDescriptorParser(
     "usbtmc",
     [],
-    {'vendorid': (int, False),
-     'productid': (int, False),
+    {'vendorid': (int, True),
+     'productid': (int, True),
      'serialnr': (str, True)}
 )
 
